@@ -8,12 +8,12 @@ import (
 	"strings"
 )
 
-func jNull() *jnode         { return &jnode{kind: "null"} }
-func jBool(b bool) *jnode   { return &jnode{kind: "bool", b: b} }
-func jNum(l string) *jnode  { return &jnode{kind: "num", lit: l} }
-func jString(s string) *jnode { return &jnode{kind: "str", s: s} }
+func jNull() *jnode            { return &jnode{kind: "null"} }
+func jBool(b bool) *jnode      { return &jnode{kind: "bool", b: b} }
+func jNum(l string) *jnode     { return &jnode{kind: "num", lit: l} }
+func jString(s string) *jnode  { return &jnode{kind: "str", s: s} }
 func jArr(xs ...*jnode) *jnode { return &jnode{kind: "arr", arr: xs} }
-func jObj() *jnode          { return &jnode{kind: "obj"} }
+func jObj() *jnode             { return &jnode{kind: "obj"} }
 func (n *jnode) set(k string, v *jnode) *jnode {
 	n.keys = append(n.keys, k)
 	n.vals = append(n.vals, v)
